@@ -164,6 +164,17 @@ fn build_item(i: &Item) -> P {
     }
 }
 
+pub const STRICT_STEP_BASE: Id = 100_000;
+
+fn has_tag(v: &V) -> bool {
+    match v {
+        V::Tag(_) => true,
+        V::Opt(Some(v)) | V::Variant(_, v) | V::Field(_, v) => has_tag(v),
+        V::List(xs) | V::Tuple(xs) => xs.iter().any(has_tag),
+        _ => false,
+    }
+}
+
 pub fn guard_msg(id: Id) -> String {
     format!("guard-{}-failed", id)
 }
@@ -207,10 +218,17 @@ fn build_wrap(w: &W, id: Id, inner: &Spec) -> P {
             .fallback_with(move || Ok::<V, String>(V::Tag(id)))
             .boxed(),
         W::FallbackWithErr => p.fallback_with(move || Err::<V, String>(fbw_msg(id))).boxed(),
-        W::Guard => p.guard(|v| !trips_guard(v), leak(&guard_msg(id))).boxed(),
+        // ids from STRICT_STEP_BASE on (only the feature-comparison corpus makes them) also reject
+        // the value a `fallback` underneath supplies
+        W::Guard => p
+            .guard(
+                move |v| !(trips_guard(v) || (id >= STRICT_STEP_BASE && has_tag(v))),
+                leak(&guard_msg(id)),
+            )
+            .boxed(),
         W::ParseStep => p
             .parse(move |v| {
-                if trips_parse(&v) {
+                if trips_parse(&v) || (id >= STRICT_STEP_BASE && has_tag(&v)) {
                     Err(parse_msg(id))
                 } else {
                     Ok(V::Tuple(vec![V::Tag(id), v]))
